@@ -1015,17 +1015,45 @@ def check_param_kinds(ctx, r, tag):
     ap = m.func("_decorator._make_argpiece")
     ctx.saw(ap)
     rets = [x for x in walk_scope(ap.node) if isinstance(x, ast.Return)]
-    has_plain = any(isinstance(x.value, ast.JoinedStr) and "=" not in "".join(v.value for v in x.value.values if isinstance(v, ast.Constant)) for x in rets)
-    has_default = any(isinstance(x.value, ast.JoinedStr) and "=" in "".join(v.value for v in x.value.values if isinstance(v, ast.Constant)) for x in rets)
+
+    def template(e, depth=0):
+        """(literal text, holes) of a piece built from f-strings, `+` and locals bound once to such pieces; None if something else"""
+        if isinstance(e, ast.Constant) and isinstance(e.value, str):
+            return e.value, []
+        if isinstance(e, ast.JoinedStr):
+            txt, holes = "", []
+            for v in e.values:
+                if isinstance(v, ast.Constant):
+                    txt += str(v.value)
+                elif isinstance(v, ast.FormattedValue):
+                    sub = template(v.value, depth + 1) if isinstance(v.value, ast.Name) and depth < 3 else None
+                    if sub is not None:
+                        txt += sub[0]
+                        holes += sub[1]
+                    else:
+                        holes.append(norm(v.value))
+            return txt, holes
+        if isinstance(e, ast.BinOp) and isinstance(e.op, ast.Add):
+            a_, b_ = template(e.left, depth + 1), template(e.right, depth + 1)
+            return None if a_ is None or b_ is None else (a_[0] + b_[0], a_[1] + b_[1])
+        if isinstance(e, ast.Name) and depth < 3 and e.id not in ap.params:
+            ds_ = c05._assignments_to(ap, e.id)
+            if len(ds_) == 1 and ds_[0][1] is not None and ds_[0][2] is None:
+                return template(ds_[0][1], depth + 1)
+        return None
+
+    temps = [template(x.value) for x in rets if x.value is not None]
+    if not temps or any(t_ is None for t_ in temps):
+        raise AnalysisError(f"{tag}: how {ap.qualname} builds the text of one parameter was not recognised")
+    has_plain = any("=" not in t_[0] for t_ in temps)
+    has_default = any("=" in t_[0] for t_ in temps)
     if has_plain and has_default:
         ctx.ok(tag, ap.qualname, "emits `name: ann` and `name: ann = default`")
     else:
         ctx.bad(tag, ap, ap.node, "the argument template no longer distinguishes parameters with and without default", construct="_make_argpiece templates")
-    for x in rets:
-        if isinstance(x.value, ast.JoinedStr):
-            holes = [norm(v.value) for v in x.value.values if isinstance(v, ast.FormattedValue)]
-            if not any("annotation" in h for h in holes):
-                ctx.bad(tag, ap, x, "a parameter is emitted without its annotation: it would not be type-checked")
+    for x, t_ in zip([x for x in rets if x.value is not None], temps):
+        if not any("annotation" in h for h in t_[1]):
+            ctx.bad(tag, ap, x, "a parameter is emitted without its annotation: it would not be type-checked")
 
 
 # ------------------------------------------------------------------------ C07.7
